@@ -7,6 +7,7 @@ import (
 	"bytes"
 	"fmt"
 	"sort"
+	"strconv"
 	"strings"
 	"testing"
 
@@ -24,6 +25,37 @@ type varCase struct {
 	Sam         *SamInput `json:"sam,omitempty"`
 	RefFromFile bool      `json:"ref_from_file"` // sam form: --reference given
 	Threads     int       `json:"threads"`
+	CLI         bool      `json:"cli,omitempty"`
+}
+
+// cliArgs renders the case as a gofasta command line (files written into dir).
+func (c varCase) cliArgs(dir string, r varRunOpts) []string {
+	anno := writeFile(dir, "anno."+c.Format, c.annoText())
+	var args []string
+	if c.Form == "msa" {
+		args = []string{"variants", "--msa", writeFile(dir, "aln.fasta", c.Msa.render()), "-a", anno, "-t", strconv.Itoa(c.Threads)}
+		if c.Msa.RefID != "" {
+			args = append(args, "--reference", c.Msa.RefID)
+		}
+	} else {
+		args = []string{"sam", "variants", "-s", writeFile(dir, "in.sam", c.Sam.render()), "-a", anno, "-t", strconv.Itoa(c.Threads)}
+		if c.RefFromFile {
+			args = append(args, "-r", writeFile(dir, "ref.fasta", c.Sam.refFasta()))
+		}
+	}
+	if r.AppendSNP {
+		args = append(args, "--append-snps")
+	}
+	if r.Start > 0 {
+		args = append(args, "--start", strconv.Itoa(r.Start))
+	}
+	if r.End > 0 {
+		args = append(args, "--end", strconv.Itoa(r.End))
+	}
+	if r.Aggregate {
+		args = append(args, "--aggregate", "--threshold", strconv.FormatFloat(r.Threshold, 'g', -1, 64))
+	}
+	return args
 }
 
 func (c varCase) annoText() string {
@@ -145,6 +177,17 @@ func checkVariantsAgainstModel(c varCase, o *Obs) error {
 			return fmt.Errorf("query %s: %v\n%s", n, err, c.describe())
 		}
 	}
+	if c.CLI && gofastaBin() != "" {
+		dir, cleanup := caseDir("varcli")
+		defer cleanup()
+		what := "variants"
+		if c.Form == "sam" {
+			what = "sam variants"
+		}
+		if err := cliAgree(o, what, out, c.cliArgs(dir, defaultVarRun(true))...); err != nil {
+			return err
+		}
+	}
 	// (d) without --append-snps: the same rows with the parenthesised parts removed
 	out2, err := runVariants(c, defaultVarRun(false))
 	if err != nil {
@@ -174,6 +217,7 @@ func labelVarCase(c varCase, o *Obs) (nontrivial bool) {
 	o.Label("format:" + c.Format)
 	o.Label("form:" + c.Form)
 	o.LabelIf(c.Format == "gff" && c.GFF.SpecPhases, "gff:spec-phases")
+	o.LabelIf(c.Format == "gff" && c.GFF.SortRows, "gff:coordinate-sorted-rows")
 	names, views, err := c.queryViews()
 	if err != nil {
 		return false
@@ -214,11 +258,14 @@ func labelVarCase(c varCase, o *Obs) (nontrivial bool) {
 					o.LabelIf(hi-lo != 2, "aa-codon-spans-join")
 				}
 			}
+			namb := 0
 			for _, p := range c.Pos {
 				if !isACGT(v.qry[p-1]) {
 					o.Label("aa-from-iupac-codon")
+					namb++
 				}
 			}
+			o.LabelIf(namb >= 2, "aa-from-doubly-ambiguous-codon")
 		}
 		for _, f := range ea.Feats {
 			for k := 0; k < f.nCodons(); k++ {
@@ -242,7 +289,7 @@ func genVarCase(t *rapid.T, emphasis string) varCase {
 	c := varCase{Format: rapid.SampledFrom([]string{"gb", "gff"}).Draw(t, "format")}
 	c.Form = rapid.SampledFrom([]string{"msa", "msa", "sam"}).Draw(t, "form")
 	ao := annoGenOpts{minRef: 20, maxRef: ifThorough(300, 90), maxFeats: ifThorough(6, 4), allowUnnamed: c.Format == "gff", iupacOutside: true}
-	c.GFF = gffOpts{SequenceRegion: rapid.Bool().Draw(t, "seqRegion"), WithFasta: true, GeneRows: rapid.Bool().Draw(t, "geneRows")}
+	c.GFF = gffOpts{SequenceRegion: rapid.Bool().Draw(t, "seqRegion"), WithFasta: true, GeneRows: rapid.Bool().Draw(t, "geneRows"), SortRows: rapid.Bool().Draw(t, "sortRows")}
 	if c.Format == "gff" {
 		switch rapid.IntRange(0, 2).Draw(t, "gffDialect") {
 		case 0:
@@ -256,6 +303,7 @@ func genVarCase(t *rapid.T, emphasis string) varCase {
 	}
 	c.Anno = genAnno(t, ao)
 	c.Threads = rapid.SampledFrom([]int{1, 1, 2, 4}).Draw(t, "threads")
+	c.CLI = rapid.IntRange(0, 19).Draw(t, "cli") == 0
 	if c.Form == "msa" {
 		m := genMSA(t, c.Anno, 4, emphasis == "indel")
 		c.Msa = &m
